@@ -4437,6 +4437,20 @@ impl Compiler {
             let expected_register = self.push_register()?;
             self.push_op(Size, &[temp_register, value_register]);
 
+            if first_or_last_pattern_is_ellipsis {
+                // A value without a size (Size yields Null) can't match a nested pattern.
+                // Without this check the `>=` comparison below throws for Null.
+                self.push_op(JumpIfNull, &[temp_register]);
+                if params.is_last_alternative {
+                    params.jumps.arm_end.push(self.push_offset_placeholder());
+                } else {
+                    params
+                        .jumps
+                        .alternative_end
+                        .push(self.push_offset_placeholder());
+                }
+            }
+
             let patterns_len = nested_patterns.len() as u8;
 
             let comparison_op = if first_or_last_pattern_is_ellipsis {
